@@ -201,7 +201,7 @@ def copyextend(self, **kwargs):
     ensures('invariant', wf_lsc(ret))
 
 
-@contract('plumpy.persistence._ensure_object_loader', props=['C19'], result_class='plumpy.persistence.LoadSaveContext')
+@contract('plumpy.persistence._ensure_object_loader', props=['C19', 'C17'], result_class='plumpy.persistence.LoadSaveContext')
 def _ensure_object_loader(context, saved_state):
     """loader precedence: the context's, else the one recorded in the saved state, else the global default"""
     requires(context is None or (isinstance(context, LoadSaveContext) and wf_lsc(context)))
@@ -329,7 +329,7 @@ def mem_list(self, P=None, T=None):
     replay('all_stored_keys', 'persister_history')
 
 
-@contract('plumpy.persistence.InMemoryPersister.save_checkpoint', props=['C14'], ghost=['P', 'T'])
+@contract('plumpy.persistence.InMemoryPersister.save_checkpoint', props=['C14', 'C08'], ghost=['P', 'T'])
 def mem_save(self, process, tag=None, P=None, T=None):
     requires(wf_mem(self) and isinstance(process, Process))
     modifies(all_heap)
